@@ -271,6 +271,23 @@ def mutate(draw, t):
 
 
 def gen(draw):
+    special = draw(st.sampled_from(range(16)))
+    if special == 0:
+        # an Optional(lit, default=d) listed AFTER a wildcard key that takes the same target key first: the value of
+        # the target stays, the default is for absent keys only
+        lit = draw(st.sampled_from(['a', 'b']))
+        wild = draw(st.sampled_from(['str', 'object']))
+        p = ['dict', [[['type', wild], ['type', 'int']], [['optd', lit, draw(st.sampled_from([['i', 0], ['i', 7]]))], ['type', 'int']]]]
+        t = ['dict', [[lit, ['i', 5]]] + ([['zz', ['i', 3]]] if draw(st.booleans()) else [])]
+        return {'pattern': p, 'target': t, 'family': 'derived', 'default': False}
+    if special == 1:
+        # equal items of different types side by side in a list: each item is matched on its own
+        pair = draw(st.sampled_from([[['i', 1], ['f', 1.0]], [['b', False], ['i', 0]], [['i', 1], ['b', True]], [['f', 0.0], ['i', 0]],
+                                     [['i', 2], ['f', 2.0], ['i', 2]]]))
+        if draw(st.booleans()):
+            pair = list(reversed(pair))
+        p = ['list', [['type', draw(st.sampled_from(['int', 'float', 'bool']))]]]
+        return {'pattern': p, 'target': ['list', pair], 'family': 'near-miss', 'default': False}
     p = gen_pat(draw, 3)
     c = draw(st.sampled_from([0, 1, 2, 4, 5, 6, 7, 4, 5, 8, 9, 6]))
     if c < 4:
